@@ -376,5 +376,13 @@ for _k, _fns in (("C13", "the from_properties constructors and scale methods of 
                  ("C20", "TdmsReader.__init__ / close and TdmsWriter.open / close (which handles are opened and closed for every kind of source)")):
     CHECKS[_k].update(text=CHECKS[_k]["text"] + TIED % _fns)
 
+CHECKS["C13"].update(text="File level: scaled_read_is_dataflow_of_denote — for every well-formed standard contiguous multi-segment encoding, the scaled data of every numeric channel read "
+    "from the file is the dataflow evaluation (Spec.evalGraph) of the NI_Scale properties THE FILE ENCODES (last write wins across segments; channel, else group, else root) "
+    "applied to the values the file encodes; scaled_window_commutes_file (every lazy window of scaled data = window of the scaled eager data), scaled_lazy_eq_eager, "
+    "raw_unchanged (the scaled data is a function of the data type, the three property dictionaries and the raw values only). " + CHECKS["C13"]["text"])
+CHECKS["C14"].update(text="File level: file_dtype_declared_eq_actual / file_dtype_of_returned_data (the declared kind computed from the file's properties is the kind of every value the "
+    "scaled read returns), file_scaled_length / file_scaled_lazy_length (a full read has exactly the number of values the reader recorded = the number the file encodes). "
+    + CHECKS["C14"]["text"])
+
 NOTES = ("Properties move from not_applicable to checks as their model, correspondence and theorems are built; a check is claimed at `proof` only when its "
          "headline theorems are registered in lean/obligations.json. See DESIGN.md.")
